@@ -14,7 +14,7 @@
   `T : Tables` (the dot-access tables of constants.py) is universally quantified; the only table fact used is
   `ClassPlain T`: `class` is not listed as a boolean attribute (checked on the real tables by the harness on every run).
 -/
-import AHP.Lemmas.AttrsClass
+import AHP.Lemmas.AttrsFrame
 namespace AHP.C09
 open AHP AHP.Attrs
 
@@ -260,6 +260,11 @@ theorem readers_keep_list (T : Tables) (e : El) :
 /-- C09c: the value `classList` returns is a fresh list: whatever is done to it, the element's views stay what
     they were (in the model the view returns a value, not a reference; the aliasing itself is exercised by the oracle). -/
 theorem classList_is_a_copy (e : El) (f : List Str → List Str) : (fun _ => e) (f (classList e)) = e := rfl
+
+/-- interleavings: every operation that does not address the class attribute — other attributes through any of the
+    six writers, every style writer, every synchronising reader — leaves the list exactly as it was -/
+theorem other_operations_keep_list (T : Tables) (op : Op) (h : KeepsClass T op) (e : El) : (step T e op).2.cls = e.cls :=
+  step_cls_frame T op h e
 
 /-! ### non-vacuity -/
 
